@@ -208,6 +208,11 @@ func (g *layoutGen) converter(i int, dir, pkgName, file, fault string) LConv {
 		// output next to the interface, in its own package
 		c.OutFile = fmt.Sprintf("./zz_conv%d_gen.go", i)
 		c.OutPkg = g.t.Module + "/" + dir
+		if g.o.AllowCwd && g.coin("same-package-via-cwd") {
+			// the same place, named from the working directory and with the package inferred
+			c.OutFile = fmt.Sprintf("@cwd/%s/zz_cwd%d_gen.go", dir, i)
+			c.OutPkg = ""
+		}
 		return c
 	}
 	if !g.o.Layouts {
